@@ -3,6 +3,7 @@ package db
 import (
 	"crypto"
 	"crypto/ecdsa"
+	"crypto/x509/pkix"
 	"encoding/asn1"
 	"time"
 
@@ -92,5 +93,125 @@ func vhManipKeyIds() {
 		h := crypto.SHA256.New()
 		h.Write(vMustDer(c.TBSCertificate))
 		vAssert(ecdsa.VerifyASN1(&rk.PublicKey, h.Sum(nil), c.SignatureValue.Bytes), "a signature over manipulated to-be-signed bytes does not verify under the real issuer key")
+	}
+}
+
+// vhManipWithRequest: C19 for a certificate whose public key comes from a
+// stored certificate request (no private key in the artifact). A root signs a
+// subordinate whose artifact holds only a request; the subordinate is
+// generated without manipulations and with every subset of the six
+// manipulations (symbolic values): each named field carries the given value,
+// every other field equals the baseline, and the signature verifies under the
+// root's key over the manipulated to-be-signed bytes.
+func vhManipWithRequest() {
+	vClockFixed(1709640000)
+	val := config.CertificateValidity{From: time.Unix(1709640000, 0), Until: time.Unix(1909640000, 0), IsStatic: true, IsSet: true}
+	other := cert.NewCertificateContext(nil, nil, val.From, val.Until)
+	vAssert(other.GeneratePrivateKey(cert.P256) == nil, "setup: key generation failed")
+	reqSpki := other.TbsCertificate.PublicKey
+	gen := func(m config.Manipulations) (*cert.Certificate, *BuildArtifact, error) {
+		d := &vDB{}
+		rootCfg := &config.CertificateContent{Alias: "root", Subject: vDN("root", false), Validity: val,
+			KeyAlgorithm: cert.P256, SignatureAlgorithm: cert.ECDSAwithSHA256, SerialNumber: 11}
+		d.ents = append(d.ents, &vEnt{alias: "root", cfg: rootCfg, meta: &Metadata{}, art: &BuildArtifact{}, parent: -1})
+		rootArt, err := GenerateArtifacts(d, "root")
+		if err != nil {
+			return nil, nil, err
+		}
+		d.ents[0].art = rootArt
+		subCfg := &config.CertificateContent{Alias: "sub", Issuer: "root", Subject: vDN("sub", false), Validity: val,
+			KeyAlgorithm: cert.P256, SignatureAlgorithm: cert.ECDSAwithSHA256, SerialNumber: 12,
+			Extensions: []config.ExtensionConfig{v1.SubjectKeyIdentifier{Content: "hash"}}, Manipulations: m}
+		req := &cert.CertificateRequest{}
+		req.TbsCsr.PublicKey = reqSpki
+		d.ents = append(d.ents, &vEnt{alias: "sub", cfg: subCfg, meta: &Metadata{}, art: &BuildArtifact{Request: req}, parent: 0})
+		subArt, err := GenerateArtifacts(d, "sub")
+		if err != nil {
+			return nil, nil, err
+		}
+		return subArt.Certificate, rootArt, nil
+	}
+	b, _, err := gen(config.Manipulations{})
+	vAssert(err == nil && b != nil, "baseline generation from a stored request failed")
+	if err != nil || b == nil {
+		return
+	}
+	vSameBytes(vMustDer(b.TBSCertificate.PublicKey), vMustDer(reqSpki), "the certificate does not carry the public key of the stored request")
+	sub := vChoose("subset", 64)
+	m := config.Manipulations{}
+	var ver int
+	algo := func(name string, arc2 byte) (*pkix.AlgorithmIdentifier, []byte) {
+		d := vByte(name)
+		vAssume(vAnd(d >= 1, d <= 39))
+		return &pkix.AlgorithmIdentifier{Algorithm: asn1.ObjectIdentifier{1, int(arc2), int(d)}}, vTLV(0x30, []byte{0x06, 0x02, 40 + arc2, d})
+	}
+	var outerRef, innerRef, pkaRef, sigval, pubbits []byte
+	if sub&1 != 0 {
+		ver = vInt("version", 0, 300)
+		m.Version = &ver
+	}
+	if sub&2 != 0 {
+		m.SignatureAlgorithm, outerRef = algo("outerarc", 2)
+	}
+	if sub&4 != 0 {
+		m.TbsSignature, innerRef = algo("innerarc", 3)
+	}
+	if sub&8 != 0 {
+		m.TbsPublicKeyAlgorithm, pkaRef = algo("pkaarc", 4)
+	}
+	if sub&16 != 0 {
+		sigval = vBytes("sigval", 2)
+		m.SignatureValue = &asn1.BitString{Bytes: append([]byte{}, sigval...), BitLength: 16}
+	}
+	if sub&32 != 0 {
+		pubbits = vBytes("pubbits", 2)
+		m.TbsPublicKey = &asn1.BitString{Bytes: append([]byte{}, pubbits...), BitLength: 16}
+	}
+	c, rootArt, err := gen(m)
+	vAssert(err == nil && c != nil, "generation from a stored request with manipulations failed")
+	if err != nil || c == nil {
+		return
+	}
+	vReach("generated")
+	bt, ct := b.TBSCertificate, c.TBSCertificate
+	if sub&1 != 0 {
+		vAssert(ct.Version == ver, ".version is not the given value (public key from a request)")
+	} else {
+		vAssert(ct.Version == bt.Version, "version changed without a manipulation")
+	}
+	if sub&2 != 0 {
+		vSameBytes(vMustDer(c.SignatureAlgorithm), outerRef, ".signatureAlgorithm is not the given OID (public key from a request)")
+	} else {
+		vSameBytes(vMustDer(c.SignatureAlgorithm), vMustDer(b.SignatureAlgorithm), "outer signature algorithm changed without a manipulation")
+	}
+	if sub&4 != 0 {
+		vSameBytes(vMustDer(ct.SignatureAlgorithm), innerRef, ".tbs.signature is not the given OID (public key from a request)")
+	} else {
+		vSameBytes(vMustDer(ct.SignatureAlgorithm), vMustDer(bt.SignatureAlgorithm), "inner signature algorithm changed without a manipulation")
+	}
+	if sub&8 != 0 {
+		vSameBytes(vMustDer(ct.PublicKey.Algorithm), pkaRef, ".tbs.subjectPublicKey.algorithm is not the given OID (public key from a request)")
+	} else {
+		vSameBytes(vMustDer(ct.PublicKey.Algorithm), vMustDer(bt.PublicKey.Algorithm), "public key algorithm changed without a manipulation")
+	}
+	if sub&32 != 0 {
+		vSameBytes(ct.PublicKey.PublicKey.Bytes, pubbits, ".tbs.subjectPublicKey.subjectPublicKey is not the given bytes (public key from a request)")
+	} else {
+		vSameBytes(ct.PublicKey.PublicKey.Bytes, bt.PublicKey.PublicKey.Bytes, "public key bits changed without a manipulation")
+	}
+	vSameBytes(vMustDer(ct.SerialNumber), vMustDer(bt.SerialNumber), "serial changed")
+	vSameBytes(vMustDer(ct.Issuer), vMustDer(bt.Issuer), "issuer changed")
+	vSameBytes(vMustDer(ct.Subject), vMustDer(bt.Subject), "subject changed")
+	vSameBytes(vMustDer(ct.Validity), vMustDer(bt.Validity), "validity changed")
+	if sub&16 != 0 {
+		vSameBytes(c.SignatureValue.Bytes, sigval, ".signatureValue is not the given bytes (public key from a request)")
+	} else {
+		rk, ok := rootArt.PrivateKey.(*ecdsa.PrivateKey)
+		vAssert(ok, "root key type")
+		if ok {
+			h := crypto.SHA256.New()
+			h.Write(vMustDer(c.TBSCertificate))
+			vAssert(ecdsa.VerifyASN1(&rk.PublicKey, h.Sum(nil), c.SignatureValue.Bytes), "the signature does not verify under the issuer's key over the manipulated to-be-signed bytes")
+		}
 	}
 }
